@@ -579,6 +579,52 @@ func main() {
 			}
 		}
 	}
+	// ---- rare values searched for deliberately: ciphertexts and RSA plaintext blocks with a leading
+	// zero byte (about 1 in 200 by chance), where every big-endian fill / trim step matters ----
+	for _, k := range []key{A, B} {
+		for _, want := range []string{"ct", "block"} {
+			for _, l := range []int{c.Rng.Intn(145), 144}[:c.N(1, 2)] {
+				data := c.Rng.Bytes(l)
+				var st []byte
+				found := false
+				for try := 0; try < 6000 && !found; try++ {
+					st = c.Rng.Bytes(192 - l + 32*12)
+					var tks [][]byte
+					for r := st[192-l:]; len(r) >= 32; r = r[32:] {
+						tks = append(tks, r[:32])
+					}
+					ct, _, blk := specRSAPad(data, st[:192-l], tks, &k.priv.PublicKey)
+					found = ct != nil && ((want == "ct" && ct[0] == 0) || (want == "block" && blk[0] == 0))
+				}
+				if !found {
+					c.Note("no leading-zero " + want + " found for RSA_PAD")
+					continue
+				}
+				if ct := h.padCase(k, data, st, false, false, "leading-zero-"+want); ct != nil {
+					c.Count("pad-enc:leading-zero-" + want)
+					h.padDec(k, ct, append(append([]byte{}, data...), st[:192-l]...), k.name == "A" && l != 144, "honest-leading-zero-"+want, "")
+				}
+			}
+			// legacy scheme: the block starts with SHA1(data), the ciphertext is searched over the padding
+			l := c.Rng.Intn(236)
+			var data, st []byte
+			found := false
+			for try := 0; try < 6000 && !found; try++ {
+				data, st = c.Rng.Bytes(l), c.Rng.Bytes(255)
+				ct, blk := specHashed(data, st, &k.priv.PublicKey)
+				found = (want == "ct" && ct[0] == 0) || (want == "block" && blk[0] == 0)
+			}
+			if !found {
+				c.Note("no leading-zero " + want + " found for the legacy scheme")
+				continue
+			}
+			if ct := h.hashCase(k, data, st, false, false, "leading-zero-"+want); ct != nil {
+				c.Count("hash-enc:leading-zero-" + want)
+				h.hashDec(k, ct, data, k.name == "B" && l >= 200, "honest-leading-zero-"+want, "")
+			}
+		}
+	}
+
 	// boundary / malformed inputs
 	for _, l := range []int{145, 146, 192, 256, 1000} {
 		h.padCase(A, c.Rng.Bytes(l), c.Rng.Bytes(600), l == 145 || (l == 146 && c.Thorough()), false, "oversize")
